@@ -130,8 +130,12 @@ def _sp_module_state():
         if ".tests" in name:
             continue
         for attr, val in sorted(vars(mod).items()):
-            if type(val) in (dict, list, set) and not attr.startswith("__"):
+            if attr.startswith("__"):
+                continue
+            if type(val) in (dict, list, set):
                 snap.append((val, type(val)(val)))
+            elif val is None or type(val) in (tuple, int, float, str, bool, bytes, frozenset):
+                snap.append(((mod, attr), ("rebind", val)))   # a global that code may rebind
             elif hasattr(val, "cache_clear") and callable(getattr(val, "cache_clear", None)) \
                     and getattr(val, "__module__", "") == name:
                 snap.append((val, None))
@@ -140,7 +144,11 @@ def _sp_module_state():
 
 def _restore_sp_module_state(snap):
     for obj, saved in snap:
-        if saved is None:
+        if isinstance(saved, tuple) and len(saved) == 2 and saved[0] == "rebind":
+            mod, attr = obj
+            if getattr(mod, attr, saved) is not saved[1]:
+                setattr(mod, attr, saved[1])
+        elif saved is None:
             obj.cache_clear()
         elif isinstance(obj, list):
             obj[:] = saved
